@@ -490,6 +490,9 @@ var selSubs = []selSub{
 	{pkg: "net", name: "Listen", repl: "NetListen", files: set("comm.go")},
 	{pkg: "os", name: "Stat", repl: "TtyStat", files: set("comm.go"), funcs: set("checkTmux")},
 	{pkg: "os", name: "OpenFile", repl: "TtyOpen", files: set("comm.go"), funcs: set("checkTmux")},
+	// creating a destination file or directory is a scheduling point (and a place for a slow disk)
+	{pkg: "os", name: "OpenFile", repl: "FsOpenFile", files: set("transfer.go"), funcs: set("doCreateFile")},
+	{pkg: "os", name: "MkdirAll", repl: "FsMkdirAll", files: set("transfer.go"), funcs: set("doCreateDirectory")},
 }
 
 var importSubs = map[string]map[string][2]string{ // file -> old import path -> (name, new path)
